@@ -41,6 +41,7 @@ class Flow(object):
         self.handled_failures = 0
         self.late_arrivals = []  # (join, route, from_task): arrival at an already fired instance
         self.cleanup_ok = set()
+        self.fail_cmds = 0
         self.problems = []  # (kind, detail) found while observing offers
         self.retried = 0
         self.canceled_action = False
@@ -224,6 +225,7 @@ class Flow(object):
             self.fail_cmd = True
             self.must_fail = True
             self.cleanup_ok |= {tg for tg in tgts if tg in self.tasks}
+            self.fail_cmds += 1
             self.events.add("fail-command")
         if tstatus == "failed":
             if handled:
